@@ -485,6 +485,39 @@ def regex_to_re(pattern: str, flags: int = 0) -> Re:
     return _conv(parsed, eff)
 
 
+def parse_pattern(pattern: str, flags: int = 0):
+    """(items of the platform regex parser, effective flags) of a str pattern, for analyses that need the ORDER of alternatives and
+    repeats (leftmost-first matching), which the language view above abstracts away.  The op codes are those of `sre_ops()`."""
+    if not isinstance(pattern, str):
+        raise AnalysisError('relang: only str patterns are supported')
+    try:
+        parsed = _sp.parse(pattern, flags)
+    except (re.error, RecursionError, OverflowError) as e:
+        raise AnalysisError(f'relang: pattern {pattern!r} does not parse: {e}') from e
+    eff = parsed.state.flags
+    for name, bit in _UNSUPPORTED_FLAGS.items():
+        if eff & bit:
+            raise AnalysisError(f'relang: regex flag {name} is not supported (pattern {pattern!r})')
+    return parsed, eff
+
+
+def sre_ops():
+    """The constants module of the platform regex parser (LITERAL, IN, BRANCH, SUBPATTERN, MAX_REPEAT, MAXREPEAT ...)."""
+    return _sc
+
+
+def item_charset(op, av, flags: int = 0) -> CharSet:
+    """The code points matched by a ONE-CHARACTER item (LITERAL / NOT_LITERAL / IN / ANY) of a parsed pattern under `flags`."""
+    if op is _sc.ANY:
+        return ANY if flags & _sc.SRE_FLAG_DOTALL else ~NEWLINE
+    if op not in (_sc.LITERAL, _sc.NOT_LITERAL, _sc.IN):
+        raise AnalysisError(f'relang: not a one-character item: {op}')
+    r = _conv([(op, av)], flags)
+    if r[0] != 'set':
+        raise AnalysisError(f'relang: not a one-character item: {op}')
+    return r[1]
+
+
 def regex_groups(pattern: str, flags: int = 0) -> Dict[int, Re]:
     """The sub-expression of every capturing group (group number -> Re).  The text captured by group n of any successful match
     belongs to the language of that sub-expression."""
